@@ -46,6 +46,9 @@ def _trace_monitor(store):
 def _compare(a, b, c):
     """First difference between the unshifted trace a and the shifted trace b; None if they agree."""
     tl = 1e-9 * (1 + abs(c))
+    dmax = 0.0  # largest deviation of a stored log-likelihood pair from the exact shift seen so far: rounding of alpha feeds the step-size
+    #             adaptation, so positions (and with them logL) of the two runs drift apart at rounding level; weights, ESS and logZ are
+    #             functions of those logL and can agree only to a small multiple of that observed drift
     for i, (x, y) in enumerate(zip(a, b)):
         where = f"after '{x['step']}' of iteration {x['iter']}"
         if x["step"] != y["step"] or x["iter"] != y["iter"]:
@@ -62,17 +65,18 @@ def _compare(a, b, c):
         if x["logl"] is not None:
             if y["logl"] is None or x["logl"].shape != y["logl"].shape or np.max(np.abs((y["logl"] - x["logl"]) - c)) > 100 * tl:
                 return ("logl", f"{where}: stored log-likelihoods are not shifted by c={c}")
+            dmax = max(dmax, float(np.max(np.abs((y["logl"] - x["logl"]) - c))))
         if "w" in x:
-            if x["w"].shape != y["w"].shape or np.max(np.abs(x["w"] - y["w"]) / (np.abs(x["w"]) + 1e-4 / len(x["w"]))) > 1e-8:
+            if x["w"].shape != y["w"].shape or np.max(np.abs(x["w"] - y["w"]) / (np.abs(x["w"]) + 1e-4 / len(x["w"]))) > 1e-8 + 20 * dmax:
                 return ("weights", f"{where}: normalised weights differ (max abs {np.max(np.abs(x['w'] - y['w'])):.3g}) with c={c}")
-        if x["ess"] is not None and abs(x["ess"] - y["ess"]) > 1e-8 * max(1.0, abs(x["ess"])):
+        if x["ess"] is not None and abs(x["ess"] - y["ess"]) > (1e-8 + 20 * dmax) * max(1.0, abs(x["ess"])):
             return ("ess", f"{where}: ESS {x['ess']!r} vs {y['ess']!r} with c={c}")
         if x["logz"] is not None and x["step"] in ("reweight", "commit"):
-            if abs((y["logz"] - x["logz"]) - x["beta"] * c) > tl:
+            if abs((y["logz"] - x["logz"]) - x["beta"] * c) > tl + 20 * dmax:
                 return ("logz", f"{where}: logZ {x['logz']!r} -> {y['logz']!r}; expected shift beta*c = {x['beta'] * c!r}")
         if "hist_logz" in x:
             for t, (z0, z1, bt) in enumerate(zip(x["hist_logz"], y["hist_logz"], x["hist_beta"])):
-                if abs((z1 - z0) - bt * c) > tl:
+                if abs((z1 - z0) - bt * c) > tl + 20 * dmax:
                     return ("logz-history", f"{where}: recorded logZ of iteration {t + 1} shifts by {z1 - z0!r}, expected beta_t*c = {bt * c!r}")
     if len(a) != len(b):
         return ("structure", f"{len(a)} step events vs {len(b)} with c={c}")
